@@ -27,14 +27,28 @@ Record mux := mkmux {
   m_frags : list finfo;  (* ring of fragsCapacity() slots *)
   m_patpmt : bytes;
   m_cur : path;          (* Fragment.fp: the file the open handle refers to *)
-  m_hist : list Z        (* GHOST (never read by the model): hls.Clock value of every fragment opened so far, oldest first *)
+  m_hist : list Z;       (* GHOST (never read by the model): hls.Clock value of every fragment this muxer opened so far, oldest first *)
+  m_base : Z;            (* GHOST: the value frag was started with (Muxer.Start / resumeSeq) *)
+  m_pfrag : Z            (* GHOST: EXT-X-MEDIA-SEQUENCE of the live playlist Start found (0 when there was none) *)
 }.
 
 Definition cap (c : cfg) : Z := c_num c + c_thr c + 1.
 
 (* NewMuxer *)
 Definition new_mux (c : cfg) : mux :=
-  mkmux false 0 fl0 0 0 (repeat fi0 (Z.to_nat (cap c))) [] PDir [].
+  mkmux false 0 fl0 0 0 (repeat fi0 (Z.to_nat (cap c))) [] PDir [] 0 0.
+
+(* Muxer.Start: ensureDir, then resumeSeq (added by the re-publish fix): when the directory holds a live playlist
+   with a sane EXT-X-MEDIA-SEQUENCE, frag carries on after the last segment it lists.  s = file system on entry *)
+Definition start_mux (c : cfg) (s : fs) : mux * list op :=
+  match fs_lookup PLive s with
+  | Some f =>
+      (match next_seq (fdata f) with
+       | Some (q, n) => mkmux false 0 fl0 0 (q + n) (repeat fi0 (Z.to_nat (cap c))) [] PDir [] (q + n) q
+       | None => new_mux c
+       end, [OMkdirAll PDir; OReadFile PLive true])
+  | None => (new_mux c, [OMkdirAll PDir; OReadFile PLive false])
+  end.
 
 Definition slot (c : cfg) (m : mux) (n : Z) : nat := Z.to_nat ((m_frag m + n) mod cap c).
 Definition get_slot (m : mux) (i : nat) : finfo := nth i (m_frags m) fi0.
@@ -48,14 +62,14 @@ Fixpoint set_nth {A} (i : nat) (x : A) (l : list A) : list A :=
   end.
 
 Definition with_frags (m : mux) (fr : list finfo) : mux :=
-  mkmux (m_opened m) (m_fragts m) (m_recmax m) (m_nfrags m) (m_frag m) fr (m_patpmt m) (m_cur m) (m_hist m).
+  mkmux (m_opened m) (m_fragts m) (m_recmax m) (m_nfrags m) (m_frag m) fr (m_patpmt m) (m_cur m) (m_hist m) (m_base m) (m_pfrag m).
 Definition set_slot (m : mux) (i : nat) (f : finfo) : mux := with_frags m (set_nth i f (m_frags m)).
 
 (* incrFrag *)
 Definition incr_frag (c : cfg) (m : mux) : mux :=
   if m_nfrags m =? c_num c
-  then mkmux (m_opened m) (m_fragts m) (m_recmax m) (m_nfrags m) (m_frag m + 1) (m_frags m) (m_patpmt m) (m_cur m) (m_hist m)
-  else mkmux (m_opened m) (m_fragts m) (m_recmax m) (m_nfrags m + 1) (m_frag m) (m_frags m) (m_patpmt m) (m_cur m) (m_hist m).
+  then mkmux (m_opened m) (m_fragts m) (m_recmax m) (m_nfrags m) (m_frag m + 1) (m_frags m) (m_patpmt m) (m_cur m) (m_hist m) (m_base m) (m_pfrag m)
+  else mkmux (m_opened m) (m_fragts m) (m_recmax m) (m_nfrags m + 1) (m_frag m) (m_frags m) (m_patpmt m) (m_cur m) (m_hist m) (m_base m) (m_pfrag m).
 
 Definition seg_of (f : finfo) : seg := mkseg (fi_now f) (fi_id f) (fi_dur f) (fi_discont f).
 Definition fi_path (f : finfo) : path := PTs (fi_now f) (fi_id f).
@@ -84,7 +98,7 @@ Definition live_playlist (c : cfg) (m : mux) (is_last : bool) : playlist :=
   mkpl (live_target c l) (m_frag m) (map seg_of l) is_last.
 
 Definition with_recmax (m : mux) (r : fl) : mux :=
-  mkmux (m_opened m) (m_fragts m) r (m_nfrags m) (m_frag m) (m_frags m) (m_patpmt m) (m_cur m) (m_hist m).
+  mkmux (m_opened m) (m_fragts m) r (m_nfrags m) (m_frag m) (m_frags m) (m_patpmt m) (m_cur m) (m_hist m) (m_base m) (m_pfrag m).
 
 (* writeRecordPlaylist; s = file system at the moment of the ReadFile *)
 Definition write_record (c : cfg) (m : mux) (s : fs) : mux * list op :=
@@ -111,7 +125,7 @@ Definition write_record (c : cfg) (m : mux) (s : fs) : mux * list op :=
 (* closeFragment; s = file system on entry *)
 Definition close_fragment (c : cfg) (m : mux) (s : fs) (is_last : bool) : mux * list op :=
   if negb (m_opened m) then (m, []) else
-  let m1 := incr_frag c (mkmux false (m_fragts m) (m_recmax m) (m_nfrags m) (m_frag m) (m_frags m) (m_patpmt m) (m_cur m) (m_hist m)) in
+  let m1 := incr_frag c (mkmux false (m_fragts m) (m_recmax m) (m_nfrags m) (m_frag m) (m_frags m) (m_patpmt m) (m_cur m) (m_hist m) (m_base m) (m_pfrag m)) in
   let ops1 := [OClose (m_cur m);
                OWriteFile PLiveBak (print_live (c_stream c) (live_playlist c m1 is_last));
                ORename PLiveBak PLive] in
@@ -129,7 +143,7 @@ Definition open_fragment (c : cfg) (m : mux) (ts : Z) (discont : bool) (now : Z)
   let id := m_frag m + m_nfrags m in
   let p := PTs now id in
   let fr := set_nth (slot c m (m_nfrags m)) (mkfi id fl0 discont true now) (m_frags m) in
-  (mkmux true ts (m_recmax m) (m_nfrags m) (m_frag m) fr (m_patpmt m) p (m_hist m ++ [now])%list,
+  (mkmux true ts (m_recmax m) (m_nfrags m) (m_frag m) fr (m_patpmt m) p (m_hist m ++ [now])%list (m_base m) (m_pfrag m),
    [OCreate p; OWrite p (m_patpmt m)]).
 
 Definition neg_max_fraglen : Z := 1000 * 90.
@@ -178,7 +192,7 @@ Inductive event :=
 Record world := mkworld { w_mux : option mux; w_fs : fs }.
 
 Definition with_patpmt (m : mux) (b : bytes) : mux :=
-  mkmux (m_opened m) (m_fragts m) (m_recmax m) (m_nfrags m) (m_frag m) (m_frags m) b (m_cur m) (m_hist m).
+  mkmux (m_opened m) (m_fragts m) (m_recmax m) (m_nfrags m) (m_frag m) (m_frags m) b (m_cur m) (m_hist m) (m_base m) (m_pfrag m).
 
 (* FeedMpegts *)
 Definition feed (c : cfg) (m : mux) (s : fs) (audio : bool) (pts dts : Z) (boundary : bool) (now : Z) (pk : bytes) : mux * list op :=
@@ -188,7 +202,7 @@ Definition feed (c : cfg) (m : mux) (s : fs) (audio : bool) (pts dts : Z) (bound
 
 Definition step (c : cfg) (w : world) (e : event) : option mux * list op :=
   match e, w_mux w with
-  | EvNew, None => (Some (new_mux c), [OMkdirAll PDir])
+  | EvNew, None => let '(m, o) := start_mux c (w_fs w) in (Some m, o)
   | EvNew, Some m => (Some m, [])
   | EvPatPmt b, Some m => (Some (with_patpmt m b), [])
   | EvFeed a p d b n pk, Some m => let '(m1, o) := feed c m (w_fs w) a p d b n pk in (Some m1, o)
@@ -209,6 +223,22 @@ Fixpoint run_from (c : cfg) (w : world) (evs : list event) : list op :=
 
 Definition world0 : world := mkworld None [].
 Definition run (c : cfg) (evs : list event) : list op := run_from c world0 evs.
+
+(* the pinned tree (before the re-publish fix): Muxer.Start = ensureDir only, every muxer numbers from 0.
+   Kept for c10_republish_seq_orig_refuted; not extracted. *)
+Definition step_orig (c : cfg) (w : world) (e : event) : option mux * list op :=
+  match e, w_mux w with
+  | EvNew, None => (Some (new_mux c), [OMkdirAll PDir])
+  | _, _ => step c w e
+  end.
+Fixpoint run_from_orig (c : cfg) (w : world) (evs : list event) : list op :=
+  match evs with
+  | [] => []
+  | e :: t =>
+      let '(m, o) := step_orig c w e in
+      (o ++ run_from_orig c (mkworld m (apply_all (w_fs w) o)) t)%list
+  end.
+Definition run_orig (c : cfg) (evs : list event) : list op := run_from_orig c world0 evs.
 
 (* ---- rendering for the correspondence check ---- *)
 Definition render_dir (root : bytes) (c : cfg) : bytes := (root ++ [47%N] ++ c_stream c)%list.
